@@ -535,7 +535,7 @@ pub fn normalise_symbol(sym: &str) -> String {
 
 pub fn is_harness_panic(p: &PanicInfo) -> bool {
     // A panic with no allsorts frame, raised from harness source, is a bug in the harness.
-    p.location.contains("/verif/harness/") || p.location.starts_with("src/")
+    p.location.contains("/verif/harness/") || p.location.contains("/harness/src/") || p.location.starts_with("src/")
 }
 
 /// Name of the function enclosing `file:line` in the allsorts sources (stable under line shifts
